@@ -545,6 +545,7 @@ func addR83(w *World, r *Report, rule string) {
 		}
 		// blocks where the cursor is known nil (exit only): successors of `current == nil` tests
 		nilSide := map[*ssa.BasicBlock]bool{}
+		nilEdge := map[[2]*ssa.BasicBlock]bool{} // the edge taken when the cursor is nil (there is no node to fill)
 		for _, b := range fn.Blocks {
 			iff, ok := b.Instrs[len(b.Instrs)-1].(*ssa.If)
 			if !ok {
@@ -574,6 +575,7 @@ func addR83(w *World, r *Report, rule string) {
 			if len(ns.Preds) == 1 {
 				nilSide[ns] = true
 			}
+			nilEdge[[2]*ssa.BasicBlock{b, ns}] = true
 		}
 		for i := 1; i < len(fn.Params); i++ {
 			p := fn.Params[i]
@@ -612,7 +614,9 @@ func addR83(w *World, r *Report, rule string) {
 					return
 				}
 				for _, s := range b.Succs {
-					dfs(s)
+					if !nilEdge[[2]*ssa.BasicBlock{b, s}] {
+						dfs(s)
+					}
 				}
 			}
 			dfs(fn.Blocks[0])
